@@ -430,7 +430,7 @@ static int check_pivotin_args (
 	int i;
 
 	if (p->basis == 0 || p->factorok == 0 || p->lp->vstat == 0 ||
-			p->lp->baz == 0)
+			p->lp->baz == 0 || p->qstatus == QS_LP_MODIFIED)
 	{
 		QSlog("no factored basis available in %s", fname);
 		return 1;
